@@ -64,6 +64,7 @@ type Ctx struct {
 	ShardCount int
 	Deadline   time.Time
 	Replay     *Violation // non-nil in replay mode
+	QuickPass  bool       // first pass of a thorough run: quick bounds
 
 	mu       sync.Mutex
 	res      Result
@@ -94,7 +95,16 @@ func NewCtx(property, tier string, seed int64, k, n int, deadline time.Time) *Ct
 }
 
 // Quick tells whether the quick tier is running.
-func (c *Ctx) Quick() bool { return c.Tier != "thorough" }
+func (c *Ctx) Quick() bool { return c.Tier != "thorough" || c.QuickPass }
+
+// EffectiveTier is the tier whose bounds are in force: a thorough run first runs everything at the quick bounds
+// (QuickPass), so that a deadline met in the deep pass never leaves it with less than the quick tier covers.
+func (c *Ctx) EffectiveTier() string {
+	if c.Quick() {
+		return "quick"
+	}
+	return "thorough"
+}
 
 // Pick returns q for the quick tier and t for the thorough tier.
 func Pick[T any](c *Ctx, q, t T) T {
@@ -240,7 +250,7 @@ func (c *Ctx) Expired() bool { return !c.Deadline.IsZero() && time.Now().After(c
 // the smallest ones, enumeration being simplest-first); the rest are counted.
 func (c *Ctx) Violation(v Violation) {
 	v.Property = c.Property
-	v.Tier = c.Tier
+	v.Tier = c.EffectiveTier() // the bounds under which the recorded choice vector is meaningful
 	c.mu.Lock()
 	defer c.mu.Unlock()
 	key := v.Clause + "\x00" + v.Witness
